@@ -4,7 +4,7 @@ SRC = ['rkcommon/utility/TimeStamp.cpp']
 PROP = dict(
     rule='rapidcheck histories (0..40 total ops) over <= 3 heap-allocated observables and <= 6 observers: create / destroy either kind in any '
          'order, notify 1..3 times, poll; model per observer = (pending, orphaned), wasNotified() compared at every poll, a second poll must be '
-         'false, final poll of everything and both destruction orders under ASan. Time stamps: 1..8 threads (the caller included) each running a '
+         'false, final poll of everything and both destruction orders under ASan; the same histories with every operation executed by one of four threads (caller, two long-lived workers, a fresh thread), one at a time; thorough tier: observers, polls and notifications 2^31+d and > 2^32 time stamps apart. Time stamps: 1..8 threads (the caller included) each running a '
          'generated program (<= 200 ops) of construct / renew / copy / copy-assign / move; all fresh values pairwise distinct, per-thread strictly '
          'increasing, copies equal their source; ASan build and TSan build. non-trivial = >= 2 notifications between two polls of one observer, an '
          'observer created after a notification, or an observable destroyed before its observers; >= 2 threads with >= 4 fresh stamps; distinct by case hash',
